@@ -31,4 +31,7 @@ LEAVES = [
      [P("now_millis", "now_millis")], "num", {}),
     ("QueryTtl", "group_call_time", "_services/browser.py", "generate_service_query", ("arg", "_group_ptr_queries_with_known_answers", 0, 0),
      [P("now_millis", "now_millis")], "num", {}),
+    # the 10 s clean-up tick expires the question history at the current time (it must not clear it)
+    ("History", "cleanup_expire_time", "_engine.py", "AsyncEngine._async_cache_cleanup", ("arg", "question_history.async_expire", 0, 0),
+     [P("now", "now")], "num", {}),
 ]
